@@ -56,12 +56,33 @@ def main():
     if not weighted:
         ops += lists
 
+    class OldSeq:
+        """an iterable that only implements the old sequence protocol (__getitem__ until IndexError)"""
+        def __init__(self, xs):
+            self.xs = list(xs)
+
+        def __getitem__(self, i):
+            return self.xs[i]
+
     def make(o, form=0):
         if o['kind'] == 'none':
             return None
         if o['kind'] == 'list':
             ks = [emb.key(k) for k, _ in o['items']]
-            f = form % 5
+            f = form % 8
+            if f == 5 and (fam[0] == fam[1] or fam[1] == 'O') and fam != 'fs' and len(ks) <= nk:
+                # the values() view of a tree of the same family: a lazy sequence in *key* order of that tree, so its
+                # members come unsorted and repeated like any other iterable's
+                h = BT()
+                for j, k in enumerate(ks):
+                    h[emb.key(j + 1)] = k
+                return h.values()
+            if f == 6:
+                return OldSeq(ks)
+            if f == 7:
+                return TS(ks).keys()        # (a keys() view: the same keys, sorted and without repetition)
+            if f >= 5:
+                f = 0
             if f == 0:
                 return ks
             if f == 1:
